@@ -10,6 +10,12 @@ C14 - a conformer ensemble stays rectangular and its conformers are live views.
       view setter writing row _conf_id of the parent's array; getters index the parent the
       same way; name / charge / mult / attrib / _atoms / _bonds read through
   R4  the number of conformers and the serialised arrays are read from the live arrays
+  R7  rows taken over from an argument are copies: a rebinding of one of the three arrays to (a view of) an array that
+      belongs to the argument makes the ensemble share storage with it - collective operations and writes through a
+      conformer then change the other object as well ("nothing else changes")
+  R8  rows whose atom dimension comes from an argument alone (not joined to the ensemble's own rows, not sized by its own
+      atom count) are taken over only where the tests on the way say that the ensemble has no atoms of its own (or as
+      many as the argument): otherwise coords / charges describe another number of atoms than the ensemble has
 Not decided: broadcasting behaviour of the setters, numeric results.
 """
 from __future__ import annotations
@@ -33,7 +39,7 @@ EXPLANATION = (
     "serialisers read the live arrays."
 )
 ASSUMPTIONS = ["numpy constructors listed in SHAPERS are the only way the code changes an array's shape"]
-FLOORS = {"C14.R1": 3, "C14.R2": 1, "C14.R3": 8, "C14.R4": 2}
+FLOORS = {"C14.R1": 3, "C14.R2": 1, "C14.R3": 8, "C14.R4": 2, "C14.R7": 2, "C14.R8": 1}
 
 
 def _shaping(value):
@@ -73,6 +79,8 @@ def run(chk):
     chk.call(r2_iter, chk, ens)
     chk.call(r3_view, chk, conf, ens)
     chk.call(r4_live, chk, ens)
+    chk.call(r7_adopted_rows_are_copies, chk, ens)
+    chk.call(r8_adopted_atom_count, chk, ens)
     # R5: "construct from ... ensemble" must give arrays of its own (an ensemble that shares its arrays with its source is
     # changed by edits of the other one: "nothing else changes") - the clause C06.R6 decides.
     # R6: "can be ... serialised": the ensemble codec of molli/chem/io.py (anchored here too) stores and restores the three
@@ -382,3 +390,232 @@ def r4_live(chk, ens):
         chk.decide(ok, "C14.R4", f"{ens.module.relpath}:ConformerEnsemble.{arr}:live-array", f"{ens.module.relpath}:{mem.getter.lineno}",
                    f"getter returns self._{arr}; setter assigns into it (shape kept)",
                    f"ConformerEnsemble.{arr} no longer hands out / assigns into the live array `_{arr}` (a setter that rebinds can change the shape of one array only)")
+
+
+# ---------------------------------------------------------------------------------------------------------------------------
+VIEW_FUNCS = {"asarray", "asanyarray", "atleast_1d", "atleast_2d", "atleast_3d", "expand_dims", "squeeze", "reshape", "transpose", "ravel", "broadcast_to",
+              "swapaxes", "moveaxis", "ascontiguousarray"}
+VIEW_METHODS = {"reshape", "view", "squeeze", "transpose", "swapaxes", "ravel"}
+COPY_FUNCS = SHAPERS | {"copy", "zeros_like", "ones_like", "full_like", "empty_like", "pad", "where", "dot", "matmul", "einsum", "cross", "mean", "sum", "frombuffer", "fromiter"}
+COPY_METHODS = {"copy", "astype", "flatten", "dot", "tolist"}
+
+
+def _basic_index(sl):
+    """basic indexing (slices, integers, None / np.newaxis, Ellipsis) gives a view of the indexed array"""
+    parts = sl.elts if isinstance(sl, ast.Tuple) else [sl]
+    for p_ in parts:
+        if isinstance(p_, ast.Slice):
+            continue
+        if isinstance(p_, ast.Constant) and (p_.value is None or p_.value is Ellipsis or isinstance(p_.value, int)):
+            continue
+        if norm(p_) in ("np.newaxis", "numpy.newaxis"):
+            continue
+        if isinstance(p_, ast.UnaryOp) and isinstance(p_.operand, ast.Constant):
+            continue
+        return False
+    return True
+
+
+def storage_of(e, params, defs_of, depth=6):
+    """whose storage does the array value `e` use?  'share:<root>' - (a view of) an array reachable from parameter <root>;
+    'own' - a fresh array or this object's own; 'unknown' - a form this table does not know."""
+    if depth <= 0:
+        return "unknown"
+    if isinstance(e, ast.Subscript):
+        inner = storage_of(e.value, params, defs_of, depth - 1)
+        if inner.startswith("share") and not _basic_index(e.slice):
+            return "own"  # fancy indexing copies
+        return inner
+    if isinstance(e, ast.Attribute):
+        if e.attr == "T":
+            return storage_of(e.value, params, defs_of, depth - 1)
+        root = e
+        while isinstance(root, (ast.Attribute, ast.Subscript)):
+            root = root.value
+        if isinstance(root, ast.Name):
+            if root.id in params:
+                return f"share:{root.id}"
+            if root.id == "self":
+                return "own"
+            inner = storage_of(root, params, defs_of, depth - 1)
+            return inner if inner.startswith("share") else "unknown"
+        return "unknown"
+    if isinstance(e, ast.Name):
+        if e.id in params:
+            return f"share:{e.id}"
+        ds = defs_of.get(e.id, [])
+        if not ds:
+            return "unknown"
+        res = [storage_of(d.value, params, defs_of, depth - 1) for d in ds]
+        for r_ in res:
+            if r_.startswith("share"):
+                return r_
+        return "unknown" if "unknown" in res else "own"
+    if isinstance(e, ast.IfExp):
+        res = [storage_of(e.body, params, defs_of, depth - 1), storage_of(e.orelse, params, defs_of, depth - 1)]
+        for r_ in res:
+            if r_.startswith("share"):
+                return r_
+        return "unknown" if "unknown" in res else "own"
+    if isinstance(e, (ast.BinOp, ast.UnaryOp, ast.Compare)):
+        return "own"
+    if isinstance(e, ast.Call):
+        d = call_name(e) or ""
+        last = d.split(".")[-1]
+        if d.split(".")[0] in ("np", "numpy"):
+            if last == "array":
+                cp = [k for k in e.keywords if k.arg == "copy"]
+                if cp and isinstance(cp[0].value, ast.Constant) and cp[0].value.value is False and e.args:
+                    return storage_of(e.args[0], params, defs_of, depth - 1)
+                return "own"
+            if last in VIEW_FUNCS and e.args:
+                return storage_of(e.args[0], params, defs_of, depth - 1)
+            if last in COPY_FUNCS:
+                return "own"
+            return "unknown"
+        if isinstance(e.func, ast.Attribute):
+            if e.func.attr in VIEW_METHODS:
+                return storage_of(e.func.value, params, defs_of, depth - 1)
+            if e.func.attr in COPY_METHODS:
+                return "own"
+        return "unknown"
+    return "unknown"
+
+
+def r7_adopted_rows_are_copies(chk, ens):
+    prog = chk.prog
+    live = {g.key for g in prog.functions(["molli.chem.ensemble"])}
+    n = 0
+    for name, mem in ens.members.items():
+        for node in (mem.func, mem.setter):
+            if node is None:
+                continue
+            f = prog.method(ens, name, "func" if node is mem.func else "setter")
+            if f is None or f.key not in live:
+                continue
+            params = set(f.params()[1:])
+            if node.args.vararg:
+                params.add(node.args.vararg.arg)
+            if not params:
+                continue
+            defs_of = {}
+            for t in walk_no_nested(node):
+                if isinstance(t, ast.Assign) and len(t.targets) == 1 and isinstance(t.targets[0], ast.Name):
+                    defs_of.setdefault(t.targets[0].id, []).append(t)
+                elif isinstance(t, ast.NamedExpr) and isinstance(t.target, ast.Name):
+                    defs_of.setdefault(t.target.id, []).append(t)
+            for a in ARRAYS:
+                sts = [s for s in walk_no_nested(node) if isinstance(s, ast.Assign) and f"self.{a}" in stored_paths(s) and any(norm(t) == f"self.{a}" for t in s.targets)]
+                # only values that can come from an argument are of interest
+                sts = [s for s in sts if {x.id for x in ast.walk(s.value) if isinstance(x, ast.Name)} & (params | set(defs_of))]
+                if not sts:
+                    continue
+                chk.analysed(f)
+                verdicts = [(s, storage_of(s.value, params, defs_of)) for s in sts]
+                shared = [(s, v) for s, v in verdicts if v.startswith("share")]
+                unknown = [(s, v) for s, v in verdicts if v == "unknown"]
+                key = f"{f.key}:rows-taken-from-an-argument-are-copies:{a}"
+                n += 1
+                if shared:
+                    s, v = shared[0]
+                    chk.fail("C14.R7", key, f.where(s), f"`{short(s, 70)}` makes self.{a} (a view of) an array that belongs to the argument `{v.split(':')[1]}`: the ensemble and that object share "
+                             f"storage, so ens.scale / translate or a write through ens[i] changes the object that was handed in (and the other way round)")
+                elif unknown:
+                    chk.note(f"C14.R7: `{short(unknown[0][0], 60)}` in {f.qualname} is in a form whose storage is not classified; no verdict on sharing for {a}")
+                    chk.ok("C14.R7", key, f.where(unknown[0][0]), "not classified (noted)")
+                else:
+                    chk.ok("C14.R7", key, f.where(sts[0]), f"{len(sts)} rebinding(s) of {a} from argument data, each through a copying constructor")
+    chk.require(n >= 2, f"only {n} rebinding(s) of the ensemble arrays from argument data found (append / extend)")
+
+
+def r8_adopted_atom_count(chk, ens):
+    """finite model: the ensemble has nc in {0, 2} conformers and na in {0, 3} atoms, the argument k in {3, 5} atoms; the conjunction of
+    the path conditions of an adopting statement is evaluated in each of the 8 worlds (sa/truth.py); where it holds, na must be 0 or k."""
+    from ..canon import path_conditions
+    from ..truth import Unknown, evaluate
+
+    prog = chk.prog
+    live = {g.key for g in prog.functions(["molli.chem.ensemble"])}
+    n = 0
+    for name, mem in ens.members.items():
+        if name == "__init__" or mem.func is None:
+            continue
+        node = mem.func
+        f = prog.method(ens, name)
+        if f is None or f.key not in live:
+            continue
+        params = set(f.params()[1:])
+        if not params:
+            continue
+        for a in ("_coords", "_atomic_charges"):
+            for s in [s for s in walk_no_nested(node) if isinstance(s, ast.Assign) and any(norm(t) == f"self.{a}" for t in s.targets)]:
+                txt = norm(s.value)
+                own = any(w in txt for w in ("self._coords", "self.coords", "self._atomic_charges", "self.atomic_charges", "self.n_atoms", "self._atoms", "self.atoms"))
+                from_arg = {x.id for x in ast.walk(s.value) if isinstance(x, ast.Name)} & params
+                if own or not from_arg:
+                    continue
+                n += 1
+                chk.analysed(f)
+                conds = path_conditions(node, s)
+                key = f"{f.key}:rows-adopted-only-by-an-ensemble-without-atoms:{a}"
+
+                def world(nc, na, k):
+                    def lookup(x):
+                        t = norm(x)
+                        if t in ("self._coords.shape", "self.coords.shape"):
+                            return [nc, na, 3]
+                        if t in ("self._atomic_charges.shape", "self.atomic_charges.shape"):
+                            return [nc, na]
+                        if t in ("self._weights.shape", "self.weights.shape"):
+                            return [nc]
+                        if t in ("self._coords.size", "self.coords.size"):
+                            return nc * na * 3
+                        if t in ("self._atomic_charges.size",):
+                            return nc * na
+                        if t in ("self.n_conformers", "len(self._coords)", "len(self.coords)", "len(self._weights)", "self._weights.size"):
+                            return nc
+                        if t in ("self.n_atoms", "len(self.atoms)", "len(self._atoms)"):
+                            return na
+                        if t in ("self.atoms", "self._atoms"):
+                            return list(range(na))
+                        for p_ in params:
+                            if t in (f"{p_}.n_atoms", f"len({p_}.atoms)", f"len({p_}.coords)", f"len({p_}._atoms)"):
+                                return k
+                            if t in (f"{p_}.coords.shape", f"{p_}._coords.shape"):
+                                return [k, 3]
+                        if isinstance(x, ast.Subscript) and isinstance(x.slice, ast.Constant) and isinstance(x.slice.value, int):
+                            v = evaluate(x.value, lookup)
+                            if isinstance(v, list):
+                                return v[x.slice.value]
+                        return NotImplemented
+                    return lookup
+
+                bad, unknown = None, []
+                for nc in (0, 2):
+                    for na in (0, 3):
+                        for k in (3, 5):
+                            holds = True
+                            for c in conds:
+                                try:
+                                    v = evaluate(c, world(nc, na, k))
+                                    if isinstance(v, list):
+                                        raise Unknown("collection as truth value")
+                                    if not v:
+                                        holds = False
+                                        break
+                                except Unknown as e:
+                                    if norm(c) not in unknown:
+                                        unknown.append(norm(c))
+                            if holds and not (na == 0 or na == k) and bad is None:
+                                bad = (nc, na, k)
+                if bad and unknown:
+                    chk.note(f"C14.R8: the tests on the way to `{short(s, 50)}` in {f.qualname} include {unknown[:2]}, which the finite model cannot evaluate; no verdict")
+                    chk.ok("C14.R8", key, f.where(s), "not classified (noted)")
+                elif bad:
+                    nc, na, k = bad
+                    chk.fail("C14.R8", key, f.where(s), f"`{short(s, 60)}` sizes self.{a} by the argument alone and is reached under "
+                             f"{[norm(c) for c in conds] or 'no condition'}: that also holds for an ensemble with {na} atoms and {nc} conformers receiving a geometry of {k} atoms - "
+                             f"afterwards coords / charges describe {k} atoms while the ensemble has {na} (not rectangular; the appended conformer cannot be written or stored)")
+                else:
+                    chk.ok("C14.R8", key, f.where(s), f"reached only where the ensemble has no atoms of its own (or as many as the argument): {[norm(c) for c in conds]}")
+    chk.require(n >= 1, "no adoption of argument-sized rows found in ConformerEnsemble (the blank-ensemble branch of append)")
